@@ -86,6 +86,9 @@ func spell(sp int, p *int64) string {
 
 func (t tcase) derivedSrc() string {
 	pre := strDerivations[t.Pre%len(strDerivations)]
+	if t.Kind == "arrnil" {
+		pre = []string{"x := [10, nil, 12, nil]", "x := [10, nil] + [12, nil]", "x := [10, nil, 12, nil, 14][0:4]"}[t.Pre%3]
+	}
 	if t.Kind == "arr" {
 		pre = arrDerivations[t.Pre%len(arrDerivations)]
 	}
@@ -269,6 +272,16 @@ func (e *env) direct(t tcase) panrun.Obs {
 }
 
 func expectRepr(t tcase, pos []int) string {
+	if t.Kind == "arrnil" { // [10, nil, 12, nil, ...]: nil is an element like any other
+		parts := make([]string, len(pos))
+		for i, p := range pos {
+			parts[i] = "nil"
+			if p%2 == 0 {
+				parts[i] = fmt.Sprintf("%d", 10+p)
+			}
+		}
+		return "[" + strings.Join(parts, ", ") + "]"
+	}
 	if t.Kind == "arr" {
 		if t.Idx {
 			return fmt.Sprintf("%d", 10+pos[0])
@@ -456,10 +469,13 @@ func run(c *core.Ctx) {
 	tk.Batched(c, 1500, "", func(emit func(tcase)) {
 		win := []*int64{nil, ip(-6), ip(-5), ip(-4), ip(-3), ip(-2), ip(-1), ip(0), ip(1), ip(2), ip(3), ip(4), ip(5), ip(6)}
 		small := []*int64{nil, ip(-1), ip(0), ip(1), ip(2)}
-		for _, kind := range []string{"arr", "ascii"} {
+		for _, kind := range []string{"arr", "ascii", "arrnil"} {
 			nd := len(strDerivations)
 			if kind == "arr" {
 				nd = len(arrDerivations)
+			}
+			if kind == "arrnil" {
+				nd = 3
 			}
 			for d := 0; d < nd; d++ {
 				for _, a := range win {
